@@ -25,6 +25,9 @@ pub struct Case {
     pub chunks: usize,
     /// QoS 1 senders started while the stream is paused
     pub others: usize,
+    /// the application offers the remaining chunks only after back-pressure has lifted and the
+    /// other senders had their chance (no second back-pressure episode helps them out)
+    pub hold: bool,
 }
 
 pub async fn run_case(case: &Case) -> (Vec<(String, String)>, bool, Vec<String>) {
@@ -77,26 +80,65 @@ pub async fn run_case(case: &Case) -> (Vec<(String, String)>, bool, Vec<String>)
     // is offered: that send() then has to wait
     let mut chunks_reported = 0usize;
     let mut writer_waiting = false;
+    let mut pushed = 0usize;
     for k in 0..case.chunks {
         cmds.push(StreamCmd::Chunk(vec![b'a' + (k % 26) as u8; case.chunk]));
+        pushed += 1;
         c.settle().await;
         let done = app.count(|e| matches!(e, Ev::SinkRet { op, n, .. } if *op == sid && *n >= 1000));
         if done == chunks_reported {
             writer_waiting = true;
+            if case.hold {
+                break;
+            }
         }
         chunks_reported = done;
     }
     let paused = writer_waiting && app.count(|e| matches!(e, Ev::CtlEnter { what, .. } if what == "wr(true)")) > 0;
-    // other senders arrive while the stream is paused
+    // other senders (and a readiness waiter) arrive while the stream is paused
     let mut others = Vec::new();
     for i in 0..case.others {
         let mut o = Op::new(&app, next_op_id(), "other-q1", sink.send_qos1(&PubSpec::new("o", vec![i as u8; 3])));
         o.start();
         others.push(o);
     }
+    let mut ready_op = None;
+    if case.hold {
+        let mut o = Op::new(&app, next_op_id(), "ready", sink.ready());
+        o.start();
+        ready_op = Some(o);
+    }
     c.settle().await;
     // back-pressure lifts; the peer acknowledges whatever it receives
     c.peer.unlimited();
+    c.settle().await;
+    if case.hold && paused {
+        // back-pressure is off and a slot is free right now: nobody may still be parked. A sender
+        // may have failed locally (a payload is owed), it must not stay blocked
+        let bp_off = app.events().iter().rev().find_map(|(_, e)| if let Ev::CtlEnter { what, .. } = e { what.starts_with("wr(").then(|| what == "wr(false)") } else { None }).unwrap_or(true);
+        if bp_off && sink.credit() > 0 {
+            if let Some(r) = &ready_op {
+                if r.result().is_none() {
+                    vio.push(("ready() still pending after back-pressure lifted (window not full)".into(), format!("credit {} — {what}", sink.credit())));
+                }
+            }
+            let wire = app.wire();
+            for (i, o) in others.iter().enumerate() {
+                // parked = not completed and its PUBLISH is not on the wire (otherwise it awaits the acknowledgement)
+                let written = wire.iter().any(|(_, p)| matches!(p, R::Publish { topic, payload, .. } if topic == "o" && payload.first() == Some(&(i as u8))));
+                if o.result().is_none() && !written {
+                    vio.push(("sender still parked after back-pressure lifted although the window is not full".into(), format!("credit {} — {what}", sink.credit())));
+                    break;
+                }
+            }
+        }
+    }
+    // the rest of the payload
+    while pushed < case.chunks {
+        cmds.push(StreamCmd::Chunk(vec![b'a' + (pushed % 26) as u8; case.chunk]));
+        pushed += 1;
+        c.settle().await;
+    }
     let mut acked = 0usize;
     for _ in 0..200 {
         c.settle().await;
@@ -127,7 +169,9 @@ pub async fn run_case(case: &Case) -> (Vec<(String, String)>, bool, Vec<String>)
             }
         }
         for o in &others {
-            if !matches!(o.result(), Some(r) if r.is_ok()) {
+            // with the rest of the payload held back a sender may fail locally ("payload expected")
+            let local_failure = case.hold && matches!(o.result(), Some(crate::app::SinkRes::ErrEncode(_)));
+            if !matches!(o.result(), Some(r) if r.is_ok()) && !local_failure {
                 vio.push(("sender still blocked after the back-pressure episode although everything was acknowledged".into(), format!("{:?} — {what}", o.result())));
                 break;
             }
@@ -146,7 +190,9 @@ pub fn run_part(_opts: &Opts, rep: &Report) {
             for cap in [1u16, 2, 3] {
                 for (chunk, chunks) in [(100usize, 6usize), (300, 3), (40, 20), (700, 2)] {
                     for others in [0usize, 1, 3] {
-                        cases.push(Case { role, qos, cap, chunk, chunks, others });
+                        for hold in [false, true] {
+                            cases.push(Case { role, qos, cap, chunk, chunks, others, hold });
+                        }
                     }
                 }
             }
